@@ -89,15 +89,25 @@ def std_summaries(program: Program) -> Dict[str, Callable]:
     ordinary dict; get_info / _set_info are the repository's own methods, interpreted, with an event recorded."""
     cfg_cls = program.find_class("JASMConfig")
 
-    def the_config(I: Interp) -> Obj:
+    def the_config(I: Interp, call=None) -> Obj:
+        """the singleton. `JASMConfig()` is __new__ (the one object) followed by __init__ - on EVERY call, when the class
+        defines one; get_instance() goes through `JASMConfig()` only the first time"""
         o = I.run.const_cache.get(("$cfg", "obj"))  # one object per run
+        init = cfg_cls.find_method("__init__") if cfg_cls is not None else None
         if o is None:
             o = Obj(cfg_cls, {"global_info": DictV([])})
             I.run.const_cache[("$cfg", "obj")] = o
+            if init is not None:
+                I.call_func(init, *(call or ([], {})), o, None, None)
+        elif call is not None and init is not None:
+            I.call_func(init, call[0], call[1], o, None, None)
         return o  # type: ignore[return-value]
 
     def s_instance(I, func, self_val, args, kwargs, node, fr):
         return the_config(I)
+
+    def s_call(I, func, self_val, args, kwargs, node, fr):
+        return the_config(I, (list(args), dict(kwargs)))
 
     def param(func, args, kwargs, i):
         """the i-th parameter (after self) of a config accessor, however the call passed it"""
@@ -129,7 +139,7 @@ def std_summaries(program: Program) -> Dict[str, Callable]:
 
     # the accessors are recognised by what they do to the store (a private setter may carry any name): the setter is the
     # method that assigns self.global_info[<param>] = <param>, the getter the one that returns a read of it
-    out = {"JASMConfig.__call__": s_instance, "JASMConfig.get_instance": s_instance}
+    out = {"JASMConfig.__call__": s_call, "JASMConfig.get_instance": s_instance}
     setters, getters = [], []
     if cfg_cls is not None:
         for name, fi in cfg_cls.methods.items():
